@@ -10,7 +10,7 @@ from sa.flow import defs_reaching, reaching_defs
 from sa.model import contains, enclosing, execute_impl_funcs, is_user_func_call, superstep_funcs
 from sa.variants import Variant, replace_once, sub_first, sub_once
 
-from .common import call_names, runner_no_raise, template_methods
+from .common import call_names, enclosing_facts, is_none_fact, runner_no_raise, template_methods
 
 ID = "C15"
 EXPLANATION = (
@@ -224,24 +224,15 @@ def run(ctx) -> None:
     # ---- R3 ---------------------------------------------------------------------
     def guarded_by_no_limiter(f: FuncInfo, node: ast.AST) -> tuple[bool, str]:
         lim = _limiter_locals(db, f)
-        # enclosing if/ifexp whose test contains `<lim> is None` as a conjunct, with node in the true branch
-        from sa.db import ancestors
-
-        prev = node
-        for a in ancestors(node):
-            if isinstance(a, (ast.If, ast.IfExp)):
-                in_true = contains(a.body, prev) if isinstance(a, ast.IfExp) else any(contains(s, prev) for s in a.body)
-                if in_true:
-                    conj = a.test.values if isinstance(a.test, ast.BoolOp) and isinstance(a.test.op, ast.And) else [a.test]
-                    for t in conj:
-                        if isinstance(t, ast.Compare) and len(t.ops) == 1 and isinstance(t.ops[0], ast.Is) and isinstance(t.comparators[0], ast.Constant) and t.comparators[0].value is None:
-                            if isinstance(t.left, ast.Name) and t.left.id in lim:
-                                return True, f"guarded by '{src(t)}'"
-                            if isinstance(t.left, ast.Call) and call_names(db, t.left, f) & LIMITER_GETTERS:
-                                return True, f"guarded by '{src(t)}'"
-            if isinstance(a, (ast.FunctionDef, ast.AsyncFunctionDef)):
-                break
-            prev = a
+        # an enclosing branch (either polarity) in which `<lim> is None` is known to hold
+        for atom, pol in enclosing_facts(node):
+            e = is_none_fact(atom, pol)
+            if e is None:
+                continue
+            if isinstance(e, ast.Name) and e.id in lim:
+                return True, f"guarded by '{src(e)} is None'"
+            if isinstance(e, ast.Call) and call_names(db, e, f) & LIMITER_GETTERS:
+                return True, f"guarded by '{src(e)} is None'"
         return False, "not under a 'no limiter installed' guard"
 
     n_sem = 0
